@@ -37,6 +37,7 @@ THEOREMS = [
     "MjProof.C12.elliptic_zone_values_agree_bottom",
     "MjProof.C12.elliptic_force_is_neg_grad_normal",
     "MjProof.C12.elliptic_force_is_neg_grad_tangent",
+    "MjProof.C12.elliptic_force_is_neg_grad_interior",
     "MjProof.C12.elliptic_gradient_inequality",
     "MjProof.C12.elliptic_convex",
     "MjProof.C12.elliptic_hessian_block",
@@ -123,9 +124,6 @@ def fd_case(rng):
     u = Upd()
     coords = []
     nb = rng.choice((1, 1, 1, 2, 4))
-    plan = []
-    for _ in range(nb):
-        plan.append(None)
     # equality / friction rows must come first in the layout the function expects
     blocks = []
     for _ in range(nb):
